@@ -34,8 +34,11 @@ Formulas == <<
   F("nested", << <<<<b>>>>, <<<<a>>>> >>, << <<<<A>>>>, <<<<a>>>> >>),     \* Formula(x="b ~ a", y=("A", "a"))
   \* the same C(...) factor at full rank in one part and at reduced rank in a later one (and the other way round)
   F("two", << <<<<b>>>> >>, << <<<<CS>>>>, <<I1, <<CS>>, <<a>>>> >>),       \* b ~ 0 + C(A, contr.sum) | C(A, contr.sum) + a
-  F("root", <<>>, << <<I1, <<CHm>>>>, <<<<CHm>>, <<CHm, b>>>> >>) >>       \* C(A, contr.helmert) | 0 + C(A, contr.helmert) + C(A, contr.helmert):b
-FormulaIds == IF FormulaSet = "c06" THEN 1..9 ELSE {4, 5, 8, 9, 10, 11, 12, 13, 14}
+  F("root", <<>>, << <<I1, <<CHm>>>>, <<<<CHm>>, <<CHm, b>>>> >>),         \* C(A, contr.helmert) | 0 + C(A, contr.helmert) + C(A, contr.helmert):b
+  \* the same interaction in two parts whose other terms differ: its full/reduced coding is decided per part
+  F("two", << <<<<b>>>> >>, << <<I1, <<A>>, <<A, a>>>>, <<I1, <<a>>, <<A, a>>>> >>),     \* b ~ A + A:a | a + A:a
+  F("root", <<>>, << <<I1, <<a>>, <<A, a>>>>, <<<<A, a>>>>, <<I1, <<A>>, <<A, a>>>> >>) >>     \* a + A:a | 0 + A:a | A + A:a
+FormulaIds == IF FormulaSet = "c06" THEN 1..9 ELSE {4, 5, 8, 9, 10, 11, 12, 13, 14, 15, 16}
 
 VARIABLES na_, nb_, nA_, fid, na, drop0
 vars == <<na_, nb_, nA_, fid, na, drop0>>
